@@ -1,6 +1,7 @@
 """C04 - JWE encrypt-then-decrypt round trip (claimed for four structural clauses only).
 
 R04.1 forbidden combinations are refused at encryption time      R04.2 zip mirror (compress before encrypt / decompress after decrypt, same condition)
+R04.7 compact round trip as a term identity: decrypt receives exactly encrypt's (C, T), iv and aad
 R04.6 DEF framing and completion gate (the C17 rules R17.2-R17.5 / R17.3 run as a clause of C04)
 R04.5 AAD predicate mirror (encrypt / JSON writer / decrypt)
 R04.3 writer / reader member agreement of the three serializations R04.4 header merge order and add_header placement
@@ -325,7 +326,78 @@ def r04_5(ctx) -> None:
               f"when decrypting: {preds} (an AAD for which the predicates differ, e.g. b\"\", cannot be decrypted)", "the same test of obj.aad at the three sites", construct="aad condition mirror")
 
 
+def _drop_json_opt(t):
+    """specialise a term to the compact serialization: parts that exist only `if isinstance(obj, BaseJSONEncryption) and ...` vanish"""
+    if not isinstance(t, tuple) or not t:
+        return t
+    if t[0] == "CAT":
+        parts = [_drop_json_opt(x) for x in t[1] if not (isinstance(x, tuple) and x and x[0] == "OPT" and "BaseJSONEncryption" in str(x[1]))]
+        return parts[0] if len(parts) == 1 else ("CAT", tuple(parts))
+    return tuple(_drop_json_opt(x) for x in t)
+
+
+def r04_7(ctx) -> None:
+    """term-level round trip of the compact JWE: what _perform_decrypt hands to enc.decrypt after extract_compact(represent_compact(
+    perform_encrypt(obj))) - composed symbolically over the byte terms of the code under the codec laws of jv/terms.py - is exactly
+    (C, T) = enc.encrypt(M, cek, iv, aad)[0 / 1] together with the same iv and the same aad"""
+    from ..terms import Terms, show, simplify, substitute
+    eng = ctx.eng
+    P = eng.prog
+    Tm = Terms(eng)
+    pe, pd = P.func("rfc7516.message:perform_encrypt"), P.func("rfc7516.message:_perform_decrypt")
+    rc, xc = P.func("rfc7516.compact:represent_compact"), P.func("rfc7516.compact:extract_compact")
+    op = pe.pos_params[0]
+    stores = {}
+    for n in fn_nodes(pe):
+        if isinstance(n, ast.Assign) and len(n.targets) == 1 and isinstance(n.targets[0], ast.Subscript) and norm(n.targets[0].value) == f"{op}.base64_segments" \
+                and isinstance(n.targets[0].slice, ast.Constant):
+            stores[n.targets[0].slice.value] = _drop_json_opt(Tm.of(pe, n.value))
+    encs = [n for n in fn_nodes(pe) if isinstance(n, ast.Call) and isinstance(n.func, ast.Attribute) and n.func.attr == "encrypt" and len(n.args) == 4]
+    if set(stores) != {"iv", "aad", "ciphertext", "tag"} or len(encs) != 1:
+        raise AnalysisError(f"R04.7: perform_encrypt stores {sorted(stores)} / {len(encs)} encrypt call(s)")
+    ENC = _drop_json_opt(Tm.of(pe, encs[0]))
+    rets = [n.value for n in fn_nodes(rc) if isinstance(n, ast.Return) and n.value is not None]
+    if len(rets) != 1:
+        raise AnalysisError("represent_compact: expected one return")
+    prod = Tm.of(rc, rets[0])
+    ro = rc.pos_params[0]
+    for k, t in stores.items():
+        prod = substitute(prod, f"{ro}.base64_segments['{k}']", t)
+    vp = xc.pos_params[0]
+    b64, raw = {}, {}
+    for n in fn_nodes(xc):
+        if isinstance(n, ast.Call) and isinstance(n.func, ast.Attribute) and n.func.attr == "update" and n.args and isinstance(n.args[0], ast.Dict):
+            tgt = b64 if norm(n.func.value).endswith(".base64_segments") else (raw if norm(n.func.value).endswith(".bytes_segments") else None)
+            if tgt is None:
+                continue
+            for k, v in zip(n.args[0].keys, n.args[0].values):
+                if isinstance(k, ast.Constant):
+                    tgt[k.value] = simplify(substitute(Tm.of(xc, v), vp, prod))
+    decs = [n for n in fn_nodes(pd) if isinstance(n, ast.Call) and isinstance(n.func, ast.Attribute) and n.func.attr == "decrypt" and len(n.args) == 5]
+    if len(decs) != 1:
+        raise AnalysisError("R04.7: enc.decrypt call in _perform_decrypt not found")
+    do = pd.pos_params[0]
+    args = []
+    for a in decs[0].args:
+        t = _drop_json_opt(Tm.of(pd, a))
+        for k, v in b64.items():
+            t = substitute(t, f"{do}.base64_segments['{k}']", v)
+        for k, v in raw.items():
+            t = substitute(t, f"{do}.bytes_segments['{k}']", v)
+        args.append(simplify(t))
+    ct, tg, _cek, iv, aad = args
+    want = {"ciphertext": ("IDX", ENC, 0), "tag": ("IDX", ENC, 1), "iv": ENC[2][3] if ENC[:2] == ("CALL", "encrypt") and len(ENC[2]) >= 5 else None,
+            "aad": ENC[2][4] if ENC[:2] == ("CALL", "encrypt") and len(ENC[2]) >= 5 else None}
+    got = {"ciphertext": ct, "tag": tg, "iv": iv, "aad": aad}
+    for k in ("ciphertext", "tag", "iv", "aad"):
+        ctx.check(want[k] is not None and got[k] == want[k], "R04.7", pd, decs[0], f"compact round trip :: {k}", f"after extract_compact(represent_compact(...)) enc.decrypt receives as {k} "
+                  f"{show(got[k])[:160]}, not the value produced / used by enc.encrypt ({show(want[k])[:120] if want[k] else '?'})", f"= {show(want[k])[:100] if want[k] else '?'}",
+                  construct=f"compact JWE round trip of {k}")
+    ctx.assume("codec laws used by R04.7: split('.') of base64url segments; B64D(B64U(x)) = x; enc.decrypt(enc.encrypt(M, k, iv, aad), k, iv, aad) = M (primitive)")
+
+
 def run(ctx) -> None:
+    ctx.guard(r04_7)
     # "with DEF, for plaintexts up to the decompression limit": the completion gate of the bounded inflater (C17) decides whether a
     # plaintext of exactly the limit still round-trips
     from .c17 import r17_2_5, r17_3
